@@ -36,6 +36,22 @@ SECOND_ROUND_MISSES = {
  "C16-6": "missed: valuations were always float64 -> the distortion helper is also called on integer valuations stored as int8 / uint8 / int16 / int32 / int64 (values up to 120, so column sums exceed the storage type)",
  "C20-4": "missed: random serial dictatorship was only run on square profiles -> rectangular complete profiles (more agents than items and vice versa); arrays that are NOT valid profiles must be rejected alike in every storage type",
 }
+THIRD_ROUND_MISSES = {
+ "C02-9": "caught by thorough only: a memo keyed on the profiles but not the capacities -> the same rule object is first asked about the same profiles with other capacities (25% of calls)",
+ "C09-8": "missed: the matching routine always got fresh list / dict objects -> a third of the graphs hand the very same argument objects over twice",
+ "C10-7": "caught by thorough only -> elections with a single alternative (m = 1) in the quick tier (also C11, C13)",
+ "C11-8": "missed: utilitarian scores were only compared between the original and the transformed run -> also against the exact share (relative 1e-9)",
+ "C13-9": "missed: utilitarian valuations never had two nearly tied leaders in C13 -> 30% of the elections get a separate near-tie valuation matrix (relative 1e-6 .. 1e-8)",
+ "C16-9": "missed: the bound itself needs an adversarial family -> the hypothesis of C16_tsf (the allocation maximises the SIMULATED weight) is now checked on the real code against the model's optAssign",
+ "C18-7": "missed: valuations were all of one magnitude -> 30% of the strict valuation rows have a wide dynamic range (order 1 next to 1e-17)",
+ "C05-7": "missed: speed ratios were 'round' -> 15% of the speed vectors are nearly equal (relative 1e-5 .. 1e-7)",
+ "C05-8": "missed: speeds were always a float array -> integer speed vectors (up to 120) stored as int8 / int16 / int32 / int64 arrays",
+ "C06-7": "missed: the zero matrix (common sum 0) was never generated -> kind `zero`",
+ "C06-8": "missed: weights of one matching were never nearly equal -> kind `near_equal` (relative 1e-5 .. 1e-7)",
+ "C06-9": "missed: matrices were always float64 -> integer-valued matrices stored as int8 / uint8 / int32 / int64 / bool arrays",
+ "C08-7": "caught by thorough only -> structured family `maxsize_backflow` (more than sys.maxsize units have to be pushed back along an edge) in the quick tier",
+ "C20-8": "missed: electorates were tiny -> 15% of the bundles add a nearly tied electorate of 100 001 .. 200 003 voters for the scoring rules and Copeland",
+}
 rows = []
 for d in sorted(glob.glob(os.path.join(VERIF, "seeded", "C*-*"))):
     m = json.load(open(os.path.join(d, "meta.json")))
@@ -50,11 +66,11 @@ for d in sorted(glob.glob(os.path.join(VERIF, "seeded", "C*-*"))):
     needs = (m.get("needs") or "").replace("|", "/").replace("\n", " ")
     if len(needs) > 160:
         needs = needs[:157] + "..."
-    if m.get("round", 1) == 2:
+    if m.get("round", 1) >= 2:
         fe = m.get("first_evaluation") or {}
         fq = (fe.get("caught_by_quick") or m["caught_by_quick"]).get(p)
         fa = (fe.get("caught_by_any_tier") or m["caught_by_any_tier"]).get(p)
-        first = SECOND_ROUND_MISSES.get(mid) or ("caught by quick" if fq else ("caught by thorough only" if fa else "missed"))
+        first = SECOND_ROUND_MISSES.get(mid) or THIRD_ROUND_MISSES.get(mid) or ("caught by quick" if fq else ("caught by thorough only" if fa else "missed"))
     else:
         first = FIRST_ROUND_MISSES.get(mid, "caught by quick")
     rows.append(f"| {mid} | {m.get('round', 1)} | {summ} | {needs} | {now} | {first} |")
